@@ -12,7 +12,7 @@ from ..flow import ERROR
 from ..model import UNKNOWN, AnchorError, Func, UnknownIdiom, short, walk_no_nested
 from .c09_helpers import (ASGI_REQ, C09_ACCESSORS, WSGI_REQ, SiteEscape, assignments, effective_members, is_4xx,
                           split_key, table_of)
-from .common import enclosing_map, is_self_attr, walk_self
+from .common import enclosing_map, implied, is_self_attr, walk_self
 
 MUTATORS = ('append', 'extend', 'insert', 'clear', 'update', 'pop', 'remove', 'setdefault', 'popitem', 'sort', 'reverse')
 
@@ -501,11 +501,66 @@ def _fold_str(p, f: Func, e, what):
     return v
 
 
-def _r4_dates(run, p):
-    w = p.func('falcon.util.misc.dt_to_http')
-    r = p.func('falcon.util.misc.http_date_to_dt')
-    run.use(w)
-    run.use(r)
+def _is_tz_test(e, name, op):
+    return (isinstance(e, ast.Compare) and len(e.ops) == 1 and isinstance(e.ops[0], op)
+            and isinstance(e.left, ast.Attribute) and e.left.attr == 'tzinfo' and isinstance(e.left.value, ast.Name)
+            and e.left.value.id == name and isinstance(e.comparators[0], ast.Constant) and e.comparators[0].value is None)
+
+
+def _receiver_aware(p, fn: Func, call: ast.Call) -> bool:
+    """Is the receiver of `<recv>.astimezone(zone)` known to be an aware
+    datetime?  Frozen table: a name tested `<name>.tzinfo is not None` on a
+    dominating edge; `.replace(tzinfo=<not None>)`; `.astimezone(...)`;
+    `now(tz)` / `fromtimestamp(x, tz)` / `strptime` with %z in a constant
+    format.  Anything else (a parameter, a strptime result without %z) may be
+    naive."""
+    recv = call.func.value
+    if isinstance(recv, ast.Call) and isinstance(recv.func, ast.Attribute):
+        a = recv.func.attr
+        if a == 'replace':
+            tz = [k.value for k in recv.keywords if k.arg == 'tzinfo']
+            return bool(tz) and not (isinstance(tz[0], ast.Constant) and tz[0].value is None)
+        if a == 'astimezone':
+            return True
+        if a in ('now', 'fromtimestamp'):
+            need = 1 if a == 'now' else 2
+            tz = [k.value for k in recv.keywords if k.arg == 'tz'] + list(recv.args[need - 1:need])
+            return bool(tz) and not (isinstance(tz[0], ast.Constant) and tz[0].value is None)
+    if isinstance(recv, ast.Call):
+        q = p.resolve_callable(fn, recv.func)
+        qn = q if isinstance(q, str) else (q.qual if q is not None and hasattr(q, 'qual') else '')
+        if qn.endswith('strptime') or (isinstance(recv.func, ast.Name) and 'strptime' in recv.func.id):
+            if len(recv.args) >= 2:
+                v = p.fold(fn.module, recv.args[1], None, fn)
+                return isinstance(v, str) and '%z' in v
+            return False
+        return False
+    if isinstance(recv, ast.Name):
+        cfg = cfg_of(fn, p)
+        nid = None
+        for n in cfg.live_nodes():
+            if any(x is call for x in n.calls()):
+                nid = n.id
+        if nid is None:
+            return False
+        for t in cfg.live_nodes():
+            if t.kind != 'test':
+                continue
+            for (y, l) in cfg.succ[t.id]:
+                if l not in ('T', 'F'):
+                    continue
+                r1 = implied(t.ast, l == 'T', lambda e: _is_tz_test(e, recv.id, ast.Is))
+                r2 = implied(t.ast, l == 'T', lambda e: _is_tz_test(e, recv.id, ast.IsNot))
+                if (r1 is False or r2 is True) and flow.dominated_by_edge(cfg, nid, (t.id, y, l)):
+                    return True
+        return False
+    return False
+
+
+def localtime_sweep(run):
+    """No date/time value written or read by the framework goes through the
+    process-local time zone (shared with C15: cookie expiry, C16: 304 decision)."""
+    p = run.project
     # the response API's contract is "naive datetimes are UTC": nothing in the
     # writer (or reader) may go through the process-local time zone.  Frozen
     # table of local-time primitives: datetime.timestamp() and astimezone()
@@ -522,6 +577,11 @@ def _r4_dates(run, p):
                 name = '.timestamp()'
             elif isinstance(c.func, ast.Attribute) and c.func.attr == 'astimezone' and not c.args and not c.keywords:
                 name = '.astimezone() without a zone'
+            elif isinstance(c.func, ast.Attribute) and c.func.attr == 'astimezone':
+                # astimezone(<zone>) is the right conversion for an AWARE value; applied to a naive one it first
+                # attaches the process-local zone.  The receiver must be known aware at this point.
+                if not _receiver_aware(p, fn, c):
+                    name = '.astimezone(<zone>) on a value not known to be timezone-aware'
             elif isinstance(c.func, ast.Attribute) and c.func.attr == 'fromtimestamp' and len(c.args) < 2 and not any(k.arg == 'tz' for k in c.keywords):
                 name = 'fromtimestamp() without tz'
             else:
@@ -533,6 +593,15 @@ def _r4_dates(run, p):
                          'so a date written by the response API does not read back to the same value' % (fn.name, name), fn, c,
                          runtime_witness='TZ=Europe/Berlin: resp.last_modified = datetime(2024,1,1,12,0) is emitted as 11:00:00 GMT; '
                                          'revalidating with the server\'s own Last-Modified gives 200 instead of 304')
+    run.ok('local-time primitives: none in %d swept functions' % len(sweep), 'falcon/', 'local-time sweep')
+
+
+def _r4_dates(run, p):
+    w = p.func('falcon.util.misc.dt_to_http')
+    r = p.func('falcon.util.misc.http_date_to_dt')
+    run.use(w)
+    run.use(r)
+    localtime_sweep(run)
     wc = _calls_named(w, 'strftime', p)
     if not wc:
         # email.utils.formatdate(<ts>, usegmt=True) writes the same IMF-fixdate
@@ -704,9 +773,61 @@ def _r4_etags(run, p):
                   runtime_witness='ETag.loads(ETag.dumps(t)) != t')
 
 
+def _r4_etag_header_writer(run, p):
+    """resp.etag accepts both a bare opaque value and a ready entity-tag.  The
+    formatter adds the surrounding quotes; what ETag.dumps writes -- strong
+    `"v"` AND weak `W/"v"` -- ends with the closing quote and must go through
+    unchanged.  Decided: the branch that wraps the value in quotes is taken
+    only where the value is known NOT to end with the quote character."""
+    f = p.func('falcon.response_helpers._format_etag_header')
+    run.use(f)
+    prm = f.params()[0]
+
+    def is_quote(e):
+        return isinstance(e, ast.Constant) and e.value == '"'
+
+    def last_char(e):
+        return (isinstance(e, ast.Subscript) and isinstance(e.value, ast.Name) and e.value.id == prm
+                and isinstance(e.slice, ast.UnaryOp) and isinstance(e.slice.op, ast.USub)
+                and isinstance(e.slice.operand, ast.Constant) and e.slice.operand.value == 1)
+
+    def ends_quote(e):
+        if isinstance(e, ast.Compare) and len(e.ops) == 1 and isinstance(e.ops[0], ast.Eq) and last_char(e.left) and is_quote(e.comparators[0]):
+            return True
+        return (isinstance(e, ast.Call) and isinstance(e.func, ast.Attribute) and e.func.attr == 'endswith' and isinstance(e.func.value, ast.Name)
+                and e.func.value.id == prm and len(e.args) == 1 and is_quote(e.args[0]))
+
+    def not_ends_quote(e):
+        return isinstance(e, ast.Compare) and len(e.ops) == 1 and isinstance(e.ops[0], ast.NotEq) and last_char(e.left) and is_quote(e.comparators[0])
+
+    wraps = []
+    for n in walk_no_nested(f.node):
+        if isinstance(n, ast.If):
+            for st in n.body:
+                if isinstance(st, (ast.Assign, ast.Return)) and st.value is not None:
+                    parts = _concat_parts(st.value)
+                    if parts and len(parts) == 3 and is_quote(parts[0]) and is_quote(parts[2]):
+                        wraps.append((n, st))
+    if not wraps:
+        # conditional expression form?
+        for n in walk_no_nested(f.node):
+            if isinstance(n, ast.IfExp):
+                parts = _concat_parts(n.body)
+                if parts and len(parts) == 3 and is_quote(parts[0]) and is_quote(parts[2]):
+                    wraps.append((n, n))
+    if not wraps:
+        raise UnknownIdiom('_format_etag_header: the quote-wrapping branch was not recognised')
+    for n, st in wraps:
+        ok = implied(n.test, True, ends_quote) is False or implied(n.test, True, not_ends_quote) is True
+        run.check(ok, '_format_etag_header wraps a value in quotes only where it does not already end with the closing quote '
+                      '(a ready strong or weak entity-tag goes through unchanged)', f, n.test,
+                  runtime_witness="resp.etag = 'W/\"abc\"' is sent as \"W/\"abc\"\" : a strong tag with a different value; If-None-Match revalidation never matches")
+
+
 def r4_writer_reader(run):
     _r4_dates(run, run.project)
     _r4_etags(run, run.project)
+    _r4_etag_header_writer(run, run.project)
 
 
 # ---------------------------------------------------------------------------
@@ -932,6 +1053,85 @@ def r7_forwarded_case(run):
         raise AnchorError('_parse_forwarded_header: parameter names are not case-folded at all')
 
 
+def r9_optional_accessors_guarded(run):
+    """Several header accessors answer None for an absent (or blank) header.
+    Another accessor of the same request object that ITERATES such a value
+    (access_route over forwarded) must supply the empty fallback itself
+    (`self.X or ()`) or sit behind a test of `self.X`: iterating None is a
+    TypeError, i.e. a 500 on a request the client can send."""
+    p = run.project
+    from .c09_helpers import node_of
+    n_sites = 0
+    for cq in (WSGI_REQ, ASGI_REQ):
+        members = effective_members(p, cq)
+        optional = set()
+        for name, m in members.items():
+            if m.kind != 'property' or m.func is None:
+                continue
+            for r in walk_no_nested(m.func.node):
+                if isinstance(r, ast.Return) and (r.value is None or (isinstance(r.value, ast.Constant) and r.value.value is None)):
+                    optional.add(name)
+        if 'forwarded' not in members:
+            raise AnchorError('%s: accessor forwarded not found' % cq)
+        seen = set()
+        for name, m in sorted(members.items()):
+            f = m.func
+            if f is None or id(f) in seen or f.cls is None or f.cls.qual not in (WSGI_REQ, ASGI_REQ):
+                continue
+            seen.add(id(f))
+            sites = []
+            for x in walk_no_nested(f.node):
+                its = []
+                if isinstance(x, (ast.For, ast.AsyncFor)):
+                    its.append(x.iter)
+                elif isinstance(x, (ast.ListComp, ast.SetComp, ast.DictComp, ast.GeneratorExp)):
+                    its += [g.iter for g in x.generators]
+                for it in its:
+                    if isinstance(it, ast.Attribute) and isinstance(it.value, ast.Name) and it.value.id == 'self' and it.attr in optional:
+                        sites.append((x, it))
+            if not sites:
+                continue
+            cfg = cfg_of(f, p)
+            run.use_cfg(cfg)
+            for x, it in sites:
+                n_sites += 1
+                attr = it.attr
+
+                def truthy(e, attr=attr):
+                    return isinstance(e, ast.Attribute) and e.attr == attr and isinstance(e.value, ast.Name) and e.value.id == 'self'
+
+                def is_none(e, attr=attr):
+                    return (isinstance(e, ast.Compare) and len(e.ops) == 1 and isinstance(e.ops[0], ast.Is) and truthy(e.left)
+                            and isinstance(e.comparators[0], ast.Constant) and e.comparators[0].value is None)
+
+                def not_none(e, attr=attr):
+                    return (isinstance(e, ast.Compare) and len(e.ops) == 1 and isinstance(e.ops[0], ast.IsNot) and truthy(e.left)
+                            and isinstance(e.comparators[0], ast.Constant) and e.comparators[0].value is None)
+
+                nid = node_of(cfg, x) if not isinstance(x, (ast.For, ast.AsyncFor)) else None
+                if nid is None:
+                    ids = [n.id for n in cfg.live_nodes() if n.ast is x or (n.kind == 'iter' and n.stmt is x)]
+                    nid = ids[0] if ids else None
+                guarded = False
+                if nid is not None:
+                    for t in cfg.live_nodes():
+                        if t.kind != 'test':
+                            continue
+                        for (y, l) in cfg.succ[t.id]:
+                            if l not in ('T', 'F'):
+                                continue
+                            ok = implied(t.ast, l == 'T', truthy) is True or implied(t.ast, l == 'T', not_none) is True \
+                                or implied(t.ast, l == 'T', is_none) is False
+                            if ok and flow.dominated_by_edge(cfg, nid, (t.id, y, l)):
+                                guarded = True
+                run.check(guarded, '%s iterates self.%s, which answers None for an absent/blank header, only with an empty fallback or behind a test of it'
+                          % (f.qual, attr), f, it if not isinstance(x, ast.For) else x.iter,
+                          runtime_witness="a request carrying the header with a blank value ('Forwarded: '): req.%s raises TypeError (500)" % name)
+    if not n_sites:
+        run.ok('no accessor iterates an Optional accessor of the same request without a fallback (the `self.X or ()` form is not a bare iteration)',
+               'falcon/request.py', 'optional accessors')
+
+
 def check(run):
     run.assume('E5 assumptions: str/bytes/re/dict.get methods and in-range sequence subscripts are total; unresolved '
                'external callees do not raise unless tabled; UTF-8 encoding of request-derived text is total')
@@ -947,4 +1147,5 @@ def check(run):
     from . import c06 as _c06
 
     run.rule('R8', _c06.r6_access_route_tail, 'access_route: both stacks append the connecting peer under the same condition (shared with C06 R6)', floor=1)
+    run.rule('R9', r9_optional_accessors_guarded, 'Optional accessors are iterated only with a fallback or behind a test', floor=1)
     run.rule('R7', r7_forwarded_case, 'Forwarded: only parameter names and the scheme are case-folded', floor=2)
